@@ -40,9 +40,14 @@ def extra(led, tier, seed):
     from contracts import gemini_registry
     led.extend(gemini_registry.obligations())
     led.extend(gemini_registry.frame_obligations())
+    led.extend(gemini_registry.options_at_call_time(seed))
     # named kernels / metrics with parameters: the affinity handed to the score is the named one with exactly the given parameters
     from contracts import forwarding
     led.extend(forwarding.affinity_obligations())
+    # the objective evaluated is the one the object's option attributes name AT CALL TIME: constructors store their parameters and
+    # nothing derived from them (no variant bound once in __init__), evaluate reads the options themselves
+    from gemclus import gemini as G_
+    led.extend(forwarding.init_obligations(classes=[getattr(G_, n) for n in ("KLGEMINI", "MI", "TVGEMINI", "HellingerGEMINI", "ChiSquareGEMINI", "MMDGEMINI", "WassersteinGEMINI")]))
     from contracts import dtype_native
     led.extend(dtype_native.gemini_dtypes(seed))
     from contracts import gemini_large
